@@ -10,8 +10,8 @@ from common import (Inconclusive, NCPU, TLC_CP, build_harness, copy_specs, log, 
                     tlc, tlc_failed, tlc_stats, tlc_violation, write_cfg, write_evidence)
 
 CONST = {"Addr": '{"A","B","M"}', "Trx": '{"c1","c2","p1"}'}
-MCC = dict(CONST, Iss="<- MCIss", Rcv="<- MCRcv", HasData="<- MCData", HasSpice="<- MCSpice", Oversize="<- MCOver")
-TC = dict(CONST, Trx='{"c1","c2","p1","c3"}', Iss="<- TIss", Rcv="<- TRcv", HasData="<- TData", HasSpice="<- TSpice", Oversize="<- TOver", MaxChal="1000",
+MCC = dict(CONST, KeepRule='"kept"', Iss="<- MCIss", Rcv="<- MCRcv", HasData="<- MCData", HasSpice="<- MCSpice", Oversize="<- MCOver")
+TC = dict(CONST, KeepRule='"kept"', Trx='{"c1","c2","p1","c3"}', Iss="<- TIss", Rcv="<- TRcv", HasData="<- TData", HasSpice="<- TSpice", Oversize="<- TOver", MaxChal="1000",
           TraceFile='"trace.ndjson"')
 INV = ["C16_ContractNeedsReceiverModuloF11", "C16_TransfersNotParked"]
 
@@ -19,7 +19,7 @@ INV = ["C16_ContractNeedsReceiverModuloF11", "C16_TransfersNotParked"]
 def run_mc(wd, tier):
     copy_specs(wd, ["Notary.tla", "NotaryMC.tla", "NotaryGen.tla"])
     write_cfg(os.path.join(wd, "mc.cfg"), "Spec", dict(MCC, MaxChal="2" if tier == "quick" else "3"),
-              ["TypeOK"] + INV, ["C16_AtMostOnce"])
+              ["TypeOK"] + INV, ["C16_AtMostOnce", "C16_ErrorKeepsAwaiting"])
     rc, out = tlc(wd, "NotaryMC.tla", os.path.join(wd, "mc.cfg"), workers=max(2, NCPU // 2), timeout=3000)
     fail = tlc_failed(out, rc)
     if fail:
@@ -59,6 +59,19 @@ def directed_oversize():
     P = lambda t, by="A", form="issued": {"op": "propose", "t": t, "by": by, "form": form}
     C = lambda t, i="A", r="B": {"op": "confirm", "t": t, "issBy": i, "rcvBy": r}
     return [[P("c3"), {"op": "data", "a": "B"}, {"op": "waiting", "a": "B", "cid": 1, "by": "B"}, C("c3"), P("c3"), P("c2"), C("c2"), P("c3")]]
+
+
+def directed_badtip():
+    """A transfer that carries junk where the receiver's signature goes is sealed by Propose into a tip that does not
+    validate; the next ledger call drops the tip and fails. A Confirm / Reject that fails this way must not cost the
+    receiver the awaiting transaction: the same request succeeds when it is made again."""
+    P = lambda t, by="A", form="issued": {"op": "propose", "t": t, "by": by, "form": form}
+    C = lambda t, i="A", r="B": {"op": "confirm", "t": t, "issBy": i, "rcvBy": r}
+    R = lambda t, a="B", by="B": {"op": "reject", "t": t, "a": a, "by": by}
+    W = {"op": "data", "a": "B"}
+    return [[P("c1"), P("p1", form="junkrsig"), C("c1"), C("c1"), P("p1"), C("c1")],
+            [P("c2"), P("p1", form="junkrsig"), R("c2"), W, {"op": "waiting", "a": "B", "cid": 1, "by": "B"}, R("c2"), R("c2")],
+            [P("c1"), P("c2"), P("p1", form="junkrsig"), P("p1"), C("c1"), R("c2"), P("p1", form="junkrsig"), P("p1", form="junkrsig"), P("p1")]]
 
 
 def directed_lift():
@@ -171,7 +184,7 @@ def check(prop, tier):
     sims = simulate(wd, 120 if tier == "quick" else 1500, 22, rng.randint(1, 10 ** 6))
     # the behaviours that wait for the 20 s read throttle to lapse take over a minute: thorough tier only
     extra = directed_slow() if tier == "thorough" else []
-    behaviours = [{"id": "C16-%d" % i, "ops": ops} for i, ops in enumerate(sims + directed() + directed_lift() + directed_oversize() + directed_races(tier) + extra)]
+    behaviours = [{"id": "C16-%d" % i, "ops": ops} for i, ops in enumerate(sims + directed() + directed_lift() + directed_oversize() + directed_badtip() + directed_races(tier) + extra)]
     log("[gen] %d behaviours" % len(behaviours))
     violations, nev, calls = drive_validate(wd, drivebin, behaviours, INV)
     kv, _, _ = drive_validate(os.path.join(wd, "kf"), drivebin, [{"id": "C16-witness-F11", "ops": WITNESS_F11}],
